@@ -58,6 +58,19 @@ def consumer_scenarios():
                 'alphabet': ['dA', 't', 't', 't'],
             }
             out.append((name, 'legacy', tok, lat))
+    # an Interest that allows longer names, answered by a Data with a longer name: the verdict is about that packet (and its name)
+    for fe, toks in (('v2', V2_TOKENS), ('legacy', LEGACY_TOKENS)):
+        for tok in toks:
+            for lat in (0, 5):
+                name = f'P|{fe}|{tok}|{lat}'
+                c03.SCENARIOS[name] = {
+                    'interests': [{'name': '/a', 'cbp': True, 'lifetime': 10, 'vlat': lat, 'verdict': tok},
+                                  {'name': '/a/b', 'cbp': False, 'lifetime': 10, 'vlat': 0, 'verdict': 'accept'}],
+                    'packets': {'dA': {'data': '/a/b'}},
+                    'prefix': ['x0', 'x1'],
+                    'alphabet': ['dA', 't', 't', 't'],
+                }
+                out.append((name, fe, tok, lat))
     # the caller awaits the result only some time after expressing (v2: the deadline counts from the expression)
     for tok in ('PASS', 'FAIL'):
         for lat, delay in ((8, 4), (5, 4), (12, 2), (3, 9)):
